@@ -115,6 +115,11 @@ func NewParameters(logn int, q, p []uint64, xs, xe DistributionLiteral, ringType
 		copy(params.pi, p)
 	}
 
+	// Q and P must be coprime: a prime present in both chains breaks the basis extension of the key-switch.
+	if !utils.AllDistinct(append(append([]uint64{}, q...), p...)) {
+		return Parameters{}, fmt.Errorf("invalid moduli: Q and P share a prime")
+	}
+
 	if err = params.initRings(); err != nil {
 		return Parameters{}, fmt.Errorf("cannot NewParameters: %w", err)
 	}
